@@ -460,59 +460,72 @@ class StepperView:
                         return "single-step"
         return None
 
+    def _callee_form(self, d: Node, call: ast.Call, idx: int | None, ix, depth: int):
+        """closed form of (element ``idx`` of) what a sibling closure returns, expressed in
+        the caller's terms"""
+        sp = self.sp
+        cal = [x for x in self.factory_values(call.func.id) if isinstance(x, ast.FunctionDef)]
+        if len(cal) != 1:
+            raise AnalysisError(f"{self.fi.ref}: cannot resolve the callee `{call.func.id}`")
+        cfi = next(f for f in self.fi.module.functions.values() if f.node is cal[0])
+        cv = StepperView(cfi)
+        forms = set()
+        for rr in returns(cv.g):
+            rv = rr.ast.value
+            if idx is not None:
+                if not (isinstance(rv, ast.Tuple) and len(rv.elts) > idx):
+                    raise AnalysisError(f"{cfi.ref}: return value is not a tuple with element {idx}")
+                rv = rv.elts[idx]
+            cf = cv.closed_form(rr, rv, ix, depth + 1)
+            sub = {}
+            for i, pn in enumerate(cv.ps):
+                a = call.args[i] if i < len(call.args) else next((k.value for k in call.keywords if k.arg == pn), None)
+                if a is None:
+                    continue
+                try:
+                    sub[sp.Symbol(pn, real=True)] = self.sym(self.res(d, a))
+                except ValueError:
+                    pass
+            forms.add(sp.simplify(cf.subs(sub, simultaneous=True)))
+        if len(forms) != 1:
+            raise AnalysisError(f"{cfi.ref}: {len(forms)} different closed forms of the returned time")
+        return forms.pop()
+
     def closed_form(self, at: Node, e: ast.AST, ix, depth: int = 0):
         """sympy closed form of an expression evaluated at node ``at``: local temporaries are
         resolved, a loop variable read after its ``for i in range(N)`` loop is N-1, a value
-        unpacked from a call of a sibling closure is that closure's closed form"""
+        (unpacked) from a call of a sibling closure is that closure's closed form"""
         sp = self.sp
         g = self.g
         e = self.res(at, e)
-        if isinstance(e, ast.Name) and depth < 2:
-            sd = single_def(g, at, e.id)
-            if sd is not None and sd[1][0] in ("unpack", "expr"):
-                d, v = sd
-                call, idx = (v[1], v[2]) if v[0] == "unpack" else (v[1], None)
-                if isinstance(call, ast.Call) and isinstance(call.func, ast.Name) and call.func.id not in self.locals:
-                    cal = [x for x in self.factory_values(call.func.id) if isinstance(x, ast.FunctionDef)]
-                    if len(cal) != 1:
-                        raise AnalysisError(f"{self.fi.ref}: cannot resolve the callee `{call.func.id}`")
-                    cfi = next(f for f in self.fi.module.functions.values() if f.node is cal[0])
-                    cv = StepperView(cfi)
-                    forms = set()
-                    for rr in returns(cv.g):
-                        rv = rr.ast.value
-                        if idx is not None:
-                            if not (isinstance(rv, ast.Tuple) and len(rv.elts) > idx):
-                                raise AnalysisError(f"{cfi.ref}: return value is not a tuple with element {idx}")
-                            rv = rv.elts[idx]
-                        cf = cv.closed_form(rr, rv, ix, depth + 1)
-                        sub = {}
-                        for i, pn in enumerate(cv.ps):
-                            a = call.args[i] if i < len(call.args) else next((k.value for k in call.keywords if k.arg == pn), None)
-                            if a is None:
-                                continue
-                            try:
-                                sub[sp.Symbol(pn, real=True)] = self.sym(self.res(d, a))
-                            except ValueError:
-                                pass
-                        forms.add(sp.simplify(cf.subs(sub, simultaneous=True)))
-                    if len(forms) != 1:
-                        raise AnalysisError(f"{cfi.ref}: {len(forms)} different closed forms of the returned time")
-                    return forms.pop()
         try:
             s = self.sym(e)
         except ValueError as ex:
             raise AnalysisError(f"{self.fi.ref}: {ex}") from ex
         for x in ast.walk(e):
-            if isinstance(x, ast.Name):
-                ds = g.defs_reaching(at, x.id)
-                if len(ds) == 1:
-                    (d,) = ds
-                    if d.kind == "for" and at not in g.loop_nodes(d):
-                        it = self.res(d, d.ast.iter)
-                        if not (isinstance(it, ast.Call) and dotted(it.func) == "range" and len(it.args) == 1 and is_name(d.ast.target, x.id)):
-                            raise AnalysisError(f"{self.fi.ref}: loop `{d.text}` is not `for i in range(N)`")
-                        s = s.subs(sp.Symbol(x.id, real=True), self.sym(it.args[0]) - 1)
+            if not isinstance(x, ast.Name):
+                continue
+            ds = g.defs_reaching(at, x.id)
+            if len(ds) != 1:
+                continue
+            (d,) = ds
+            if d.kind == "for" and at not in g.loop_nodes(d):
+                it = self.res(d, d.ast.iter)
+                if not (isinstance(it, ast.Call) and dotted(it.func) == "range" and len(it.args) == 1 and is_name(d.ast.target, x.id)):
+                    raise AnalysisError(f"{self.fi.ref}: loop `{d.text}` is not `for i in range(N)`")
+                s = s.subs(sp.Symbol(x.id, real=True), self.sym(it.args[0]) - 1)
+                continue
+            v = def_value(d, x.id)
+            if v[0] in ("unpack", "expr") and depth < 2:
+                call, idx = (v[1], v[2]) if v[0] == "unpack" else (v[1], None)
+                if (
+                    isinstance(call, ast.Call)
+                    and isinstance(call.func, ast.Name)
+                    and call.func.id not in self.locals
+                    and x.id not in self.stop
+                    and any(isinstance(y, ast.FunctionDef) for y in self.factory_values(call.func.id))
+                ):
+                    s = s.subs(sp.Symbol(x.id, real=True), self._callee_form(d, call, idx, ix, depth))
         return s
 
 
